@@ -254,16 +254,17 @@ func (l *Lexer) GetLineAndCol(pos int) (string, int, int) {
 	// positions are byte offsets, so walk the source byte by byte
 	for i := 0; i < len(l.src); i++ {
 		r := l.src[i]
+		if i == pos {
+			// a newline byte belongs to the line it ends
+			inLine = true
+			col = i - lineStart
+		}
 		if r == '\n' {
 			if inLine {
 				return l.src[lineStart:i], line, col
 			}
 			line++
 			lineStart = i + 1
-		}
-		if i == pos {
-			inLine = true
-			col = i - lineStart
 		}
 	}
 	if !inLine && pos >= len(l.src) {
